@@ -306,6 +306,11 @@ def execute_confine(case):
             elif cmd == 'kill' and 'pid' in props and pidv not in tworkers:
                 nontrivial = True
                 classes.add('pid-not-a-worker-of-named-watcher')
+            # a zombie cannot receive anything (and vanishes for good when
+            # its parent dies): the exact-set clause is about the processes
+            # that were running when the request arrived
+            running0 = set(p_.pid for p_ in k.procs.values()
+                           if p_.state == 'running')
             req = w.request(cmd, props)
             # kill() calls that succeeded (ESRCH attempts are not sends)
             sync = [e for e in k.signal_log[n0:] if e["state"] != 'gone']
@@ -328,8 +333,9 @@ def execute_confine(case):
                         k.foreign_kills[fk0:])))
             # (2) exact addressed set for signal requests
             if expect is not None and rep.get("status") == "ok":
-                got = sorted((e["pid"], e["sig"]) for e in sync)
-                want = sorted((p, num) for p in expect)
+                got = sorted((e["pid"], e["sig"]) for e in sync
+                             if e["pid"] in running0)
+                want = sorted((p, num) for p in expect if p in running0)
                 missing = [x for x in want if x not in got]
                 if got != want and not [x for x in got if x not in want] \
                         and all(any(pp in k.descendants_ever(wk) and
